@@ -64,6 +64,32 @@ pub fn dispatch(req: &Value) -> Result<Value, String> {
             }
             Ok(json!(outs))
         }
+        "config_roundtrip" => {
+            // {"doc": <json>, "settings": <GenerateConfig as serde prints it>, "project_dir": "abc"}
+            // -> {"saved": bool, "doc_after": <json|null>, "read_back": <GenerateConfig|null>, "error": str}
+            use tauri_typegen::GenerateConfig;
+            let dir = std::env::temp_dir().join(format!("verif-cfg-{}", std::process::id()));
+            let _ = std::fs::remove_dir_all(&dir);
+            std::fs::create_dir_all(dir.join(s(req, "project_dir"))).map_err(|e| e.to_string())?;
+            let conf = dir.join("tauri.conf.json");
+            std::fs::write(&conf, serde_json::to_string(&req["doc"]).unwrap()).map_err(|e| e.to_string())?;
+            let old = std::env::current_dir().map_err(|e| e.to_string())?;
+            std::env::set_current_dir(&dir).map_err(|e| e.to_string())?;
+            let cfg: GenerateConfig = serde_json::from_value(req["settings"].clone()).map_err(|e| e.to_string())?;
+            let saved = cfg.save_to_tauri_config(&conf);
+            let after: Value = std::fs::read_to_string(&conf)
+                .ok()
+                .and_then(|t| serde_json::from_str(&t).ok())
+                .unwrap_or(Value::Null);
+            let rb = match GenerateConfig::from_tauri_config(&conf) {
+                Ok(Some(c)) => serde_json::to_value(&c).unwrap(),
+                _ => Value::Null,
+            };
+            let _ = std::env::set_current_dir(old);
+            let _ = std::fs::remove_dir_all(&dir);
+            Ok(json!({"saved": saved.is_ok(), "doc_after": after, "read_back": rb,
+                      "error": saved.err().map(|e| e.to_string())}))
+        }
         "kernel" => {
             // private string kernels, reached through the verif-hooks feature (or public API)
             use tauri_typegen::analysis::serde_parser::verif_hooks as sh;
